@@ -80,6 +80,7 @@ class Executor(ExprMixin, StmtMixin, LoopMixin):
         self.label_prefix = ""
         self.depth = 0
         self.param_defaults = []
+        self._hints_seen = set()
         self._names = {}
         self._loops_seen = set()
         if src is not None:
@@ -372,6 +373,11 @@ class Executor(ExprMixin, StmtMixin, LoopMixin):
                 if cname in api.CLASSES:
                     return self.construct(api.CLASSES[cname], args, kwargs, st, node)
             raise Unsupported(f"call to {q}: no contract and no trusted model", node)
+        if isinstance(fv.ty, T.Ref) and not fv.is_py:
+            cs = self.class_of(fv.ty)
+            m = self.find_method(cs, "__call__")
+            if m is not None:
+                return self.call_method(fv, "__call__", args, kwargs, st, node)
         raise Unsupported(f"call of {fv}", node)
 
     def construct(self, cs, args, kwargs, st, node):
@@ -660,7 +666,16 @@ def _f_typed_forall(ex, node, st):
     raise Unsupported("forall form: use all(... for ...) instead", node)
 
 
+def _f_allocated(ex, node, st):
+    """allocated(x): x is in the CURRENT allocation set (objects created so far)."""
+    v = ex.eval(node.args[0], st)
+    if st.alloc is None:
+        st.alloc = z3.Const("alloc0", z3.ArraySort(T.RefSort, z3.BoolSort()))
+    return Val(T.BOOL, z3.Select(st.alloc, lift(v)))
+
+
 SPEC_FORMS = {
+    "allocated": _f_allocated,
     "implies": _f_implies,
     "iff": _f_iff,
     "ite": _f_ite,
